@@ -6,7 +6,8 @@
 (* for the terminal's final state; after the end of the session no preview process may be left.                       *)
 (*                                                                                                                    *)
 (* Events (field ev):                                                                                                 *)
-(*   begin   sid texts tmpls tag          new session (state reset); item texts; templates tag -> field codes          *)
+(*   begin   sid texts tmpls kinds tag    new session (state reset); item texts; templates tag -> field codes; what    *)
+(*                                        the command does by item index mod Len(kinds) (kind "mute" prints nothing)   *)
 (*   enq     q item nitems tag during     terminal announces a request (hook BEFORE the try-send and the Set); during  *)
 (*                                        = the action being executed, "" when the render loop announces it            *)
 (*   sig     immediately sent             outcome of the non-blocking send on killChan (cancel / kill)                 *)
@@ -29,7 +30,7 @@ EXTENDS Integers, Sequences, FiniteSets, TLC, Json, IOUtils
 TraceLog == ndJsonDeserialize(IOEnv.TRACE)
 None == [none |-> TRUE]
 
-VARIABLES l, sid, texts, tmpls,
+VARIABLES l, sid, texts, tmpls, kinds,
           issued,       \* announced requests not yet taken (or overwritten), oldest first
           expectSig,    \* an enq whose try-send has not been logged yet
           reqs,         \* reqs[v] = request taken as version v
@@ -40,22 +41,23 @@ VARIABLES l, sid, texts, tmpls,
           pvSeq,        \* sequence number of the last event logged by the previewer goroutine itself (pick, cstart, cexit)
           quitSig,      \* outcome of the kill try-send of the exit path as far as logged: none | sent | dropped
           dev, phase    \* phase: run | exited
-vars == <<l, sid, texts, tmpls, issued, expectSig, reqs, cur, nsent, nkill, lastDisp, started, pvSeq, quitSig, dev, phase>>
+vars == <<l, sid, texts, tmpls, kinds, issued, expectSig, reqs, cur, nsent, nkill, lastDisp, started, pvSeq, quitSig, dev, phase>>
 
-Init == /\ l = 1 /\ sid = -1 /\ texts = <<>> /\ tmpls = <<>> /\ issued = <<>> /\ expectSig = FALSE /\ reqs = <<>> /\ cur = None
+Init == /\ l = 1 /\ sid = -1 /\ texts = <<>> /\ tmpls = <<>> /\ kinds = <<>> /\ issued = <<>> /\ expectSig = FALSE /\ reqs = <<>> /\ cur = None
         /\ nsent = 0 /\ nkill = 0 /\ lastDisp = None /\ started = <<>> /\ pvSeq = 0 /\ quitSig = "none" /\ dev = {} /\ phase = "run"
 
 Ev == TraceLog[l]
 Is(name) == l <= Len(TraceLog) /\ Ev.ev = name /\ l' = l + 1
 
 TBegin == /\ Is("begin")
-          /\ sid' = Ev.sid /\ texts' = Ev.texts /\ tmpls' = Ev.tmpls
+          /\ sid' = Ev.sid /\ texts' = Ev.texts /\ tmpls' = Ev.tmpls /\ kinds' = Ev.kinds
           /\ issued' = <<>> /\ expectSig' = FALSE /\ reqs' = <<>> /\ cur' = None /\ nsent' = 0 /\ nkill' = 0 /\ lastDisp' = None
           /\ started' = <<>> /\ pvSeq' = 0 /\ quitSig' = "none" /\ dev' = {} /\ phase' = "run"
 
 -------------------------------------------------------------------------------
 (* what the placeholders of a template evaluate to - documented semantics of {n} {} {q} {+n} {+f} {f} (man fzf)   *)
 NoItem(i) == i < 0
+Mute(i) == kinds[((IF NoItem(i) THEN 0 ELSE i) % Len(kinds)) + 1] = "mute"      \* the command for this line prints nothing
 NStr(i) == IF NoItem(i) THEN "" ELSE ToString(i)
 TextOf(i) == IF NoItem(i) THEN "" ELSE texts[i + 1]
 Plus(st) == IF st.sel = <<>> THEN <<st.item>> ELSE st.sel        \* {+}: the selection, or the current line if there is none
@@ -90,7 +92,7 @@ TEnq == /\ Is("enq") /\ phase = "run" /\ ~expectSig
         /\ LET a == Append(issued, [q |-> Ev.q, item |-> Ev.item, nitems |-> Ev.nitems, tag |-> Ev.tag, seq |-> Ev.seq, during |-> Ev.during])
            IN issued' = IF InFlight /\ Len(a) > 2 THEN SubSeq(a, Len(a) - 1, Len(a)) ELSE a
         /\ expectSig' = TRUE
-        /\ UNCHANGED <<sid, texts, tmpls, reqs, cur, nsent, nkill, lastDisp, started, pvSeq, quitSig, dev, phase>>
+        /\ UNCHANGED <<sid, texts, tmpls, kinds, reqs, cur, nsent, nkill, lastDisp, started, pvSeq, quitSig, dev, phase>>
 
 (* the try-send: taken (a watcher was in its select) or dropped.  A drop while a command is in flight is where the  *)
 (* deviations LostCancel / LostKillAtExit of FzfPreview can have happened: both readings are tried, the deviation    *)
@@ -105,7 +107,7 @@ TSig == /\ Is("sig") /\ phase = "run"
                 /\ \/ UNCHANGED dev
                    \/ /\ InFlight /\ (Ev.immediately \/ cur.kills = 0)     \* a command is being started / runs unsignalled
                       /\ dev' = dev \cup {IF Ev.immediately THEN "LostKillAtExit" ELSE "LostCancel"}
-        /\ UNCHANGED <<sid, texts, tmpls, issued, reqs, cur, nkill, lastDisp, started, pvSeq, phase>>
+        /\ UNCHANGED <<sid, texts, tmpls, kinds, issued, reqs, cur, nkill, lastDisp, started, pvSeq, phase>>
 
 (* the previewer is sequential: it takes the next request only after the previous command was reaped; it takes one  *)
 (* of the announced requests, never one older than what it took before; versions count up by one.  Taking a request *)
@@ -123,29 +125,29 @@ TPick == /\ Is("pick") /\ phase = "run" /\ Free
          /\ cur' = IF Ev.item = -1 THEN None          \* no current line and nothing forces an update: blank preview, no command
                    ELSE [v |-> Ev.version, pid |-> 0, started |-> FALSE, exited |-> FALSE, kills |-> 0, ctx |-> FALSE]
          /\ pvSeq' = Ev.seq
-         /\ UNCHANGED <<sid, texts, tmpls, expectSig, nsent, nkill, lastDisp, started, quitSig, phase>>
+         /\ UNCHANGED <<sid, texts, tmpls, kinds, expectSig, nsent, nkill, lastDisp, started, quitSig, phase>>
 
 TStart == /\ Is("cstart") /\ phase = "run" /\ InFlight /\ ~cur.started /\ cur.v = Ev.version
           /\ cur' = [cur EXCEPT !.started = TRUE, !.pid = Ev.pid]
           /\ started' = Append(started, [pid |-> Ev.pid, v |-> Ev.version])
           /\ pvSeq' = Ev.seq
-          /\ UNCHANGED <<sid, texts, tmpls, issued, expectSig, reqs, nsent, nkill, lastDisp, quitSig, dev, phase>>
+          /\ UNCHANGED <<sid, texts, tmpls, kinds, issued, expectSig, reqs, nsent, nkill, lastDisp, quitSig, dev, phase>>
 
 (* the watcher leaves its select after one receipt *)
 TKill == /\ Is("kill") /\ phase = "run" /\ InFlight /\ cur.started /\ cur.v = Ev.version /\ cur.kills = 0 /\ ~cur.ctx
          /\ cur' = [cur EXCEPT !.kills = 1] /\ nkill' = nkill + 1
-         /\ UNCHANGED <<sid, texts, tmpls, issued, expectSig, reqs, nsent, lastDisp, started, pvSeq, quitSig, dev, phase>>
+         /\ UNCHANGED <<sid, texts, tmpls, kinds, issued, expectSig, reqs, nsent, lastDisp, started, pvSeq, quitSig, dev, phase>>
 (* cancel() comes after killPreview() on the exit path: a watcher can see ctx.Done only after the kill was attempted *)
 TCtx == /\ Is("ctxdone") /\ phase = "run" /\ InFlight /\ cur.started /\ cur.v = Ev.version /\ cur.kills = 0 /\ ~cur.ctx
         /\ quitSig # "none"
         /\ cur' = [cur EXCEPT !.ctx = TRUE]
-        /\ UNCHANGED <<sid, texts, tmpls, issued, expectSig, reqs, nsent, nkill, lastDisp, started, pvSeq, quitSig, dev, phase>>
+        /\ UNCHANGED <<sid, texts, tmpls, kinds, issued, expectSig, reqs, nsent, nkill, lastDisp, started, pvSeq, quitSig, dev, phase>>
 (* nobody but the watcher kills the command: without a receipt it ends by itself, with status 0 *)
 TCExit == /\ Is("cexit") /\ phase = "run" /\ InFlight /\ cur.started /\ cur.v = Ev.version
           /\ (cur.kills = 0 => Ev.status = 0)
           /\ cur' = [cur EXCEPT !.exited = TRUE]
           /\ pvSeq' = Ev.seq
-          /\ UNCHANGED <<sid, texts, tmpls, issued, expectSig, reqs, nsent, nkill, lastDisp, started, quitSig, dev, phase>>
+          /\ UNCHANGED <<sid, texts, tmpls, kinds, issued, expectSig, reqs, nsent, nkill, lastDisp, started, quitSig, dev, phase>>
 
 (* displays arrive in version order and show output of a command that was really started for that version; the      *)
 (* fields that depend on the focused line and the query are those of the request taken as that version               *)
@@ -154,7 +156,7 @@ TDisp == /\ Is("disp") /\ phase = "run"
          /\ (lastDisp # None => Ev.version >= lastDisp.v)
          /\ (Ev.nlines > 0 => AgreesWithRequest(Ev.head, reqs[Ev.version]))
          /\ lastDisp' = [v |-> Ev.version, nlines |-> Ev.nlines, head |-> Ev.head]
-         /\ UNCHANGED <<sid, texts, tmpls, issued, expectSig, reqs, cur, nsent, nkill, started, pvSeq, quitSig, dev, phase>>
+         /\ UNCHANGED <<sid, texts, tmpls, kinds, issued, expectSig, reqs, cur, nsent, nkill, started, pvSeq, quitSig, dev, phase>>
 
 -------------------------------------------------------------------------------
 (* Quiescence.  e.procs = process groups of preview commands alive in the process table; e.log = the records the    *)
@@ -185,13 +187,17 @@ CaughtUp(e) ==
     /\ \A k \in 1..Len(issued) : SameReq(issued[k], LastReq) /\ issued[k].tag = LastReq.tag     \* nothing different is waiting
     /\ IF Blank(e)
        THEN (* no line under the cursor, nothing to preview: no command, blank window *)
-            /\ cur = None /\ e.procs = <<>> /\ lastDisp # None /\ lastDisp.v = Len(reqs) /\ lastDisp.nlines = 0
+            /\ cur = None /\ e.procs = <<>> /\ lastDisp # None /\ lastDisp.v = Len(reqs) /\ lastDisp.nlines = 0 /\ e.pane = <<>>
        ELSE /\ cur # None /\ cur.v = Len(reqs) /\ cur.started /\ cur.kills = 0
             /\ (cur.exited => e.procs = <<>>)
-            /\ lastDisp # None /\ lastDisp.v = Len(reqs) /\ lastDisp.nlines > 0
+            /\ lastDisp # None /\ lastDisp.v = Len(reqs)
+            /\ IF Mute(e.cur)
+               THEN lastDisp.nlines = 0 /\ e.pane = <<>>                         \* the right command printed nothing: empty window
+               ELSE /\ lastDisp.nlines > 0
+                    /\ (~NoItem(e.cur) =>
+                          /\ lastDisp.head = Expected(e.tag, FinalState(e))      \* what fzf put into the window
+                          /\ e.pane = Expected(e.tag, FinalState(e)))            \* what the terminal shows
             /\ (~NoItem(e.cur) =>
-                  /\ lastDisp.head = Expected(e.tag, FinalState(e))              \* what fzf put into the window
-                  /\ e.pane = Expected(e.tag, FinalState(e))                     \* what the terminal shows
                   /\ e.log # <<>> /\ e.log[Len(e.log)].pid = cur.pid             \* what the command itself logged
                   /\ e.log[Len(e.log)].vals = Expected(e.tag, FinalState(e)))
 (* exactly what the deviation StaleAfterShow of FzfPreview leads to: the request taken last was announced by a       *)
@@ -217,7 +223,7 @@ TQuiet == /\ Is("quiet") /\ phase = "run"
           /\ OneAlive(Ev) /\ LogOK(Ev)
           /\ \/ (~Ev.visible \/ CaughtUp(Ev) \/ StuckByLostCancel(Ev)) /\ UNCHANGED dev
              \/ Ev.visible /\ StaleAfterShow(Ev) /\ dev' = dev \cup {"StaleAfterShow"}
-          /\ UNCHANGED <<sid, texts, tmpls, issued, expectSig, reqs, cur, nsent, nkill, lastDisp, started, pvSeq, quitSig, phase>>
+          /\ UNCHANGED <<sid, texts, tmpls, kinds, issued, expectSig, reqs, cur, nsent, nkill, lastDisp, started, pvSeq, quitSig, phase>>
 
 (* End of the session: none survives.  A survivor is explained only by a kill that was dropped (LostKillAtExit), or  *)
 (* one that was never attempted / taken by the watcher but not carried out before the process was gone                *)
@@ -228,7 +234,7 @@ TExit == /\ Is("exit") /\ phase = "run"
                /\ \/ quitSig = "dropped" /\ "LostKillAtExit" \in dev /\ UNCHANGED dev
                   \/ quitSig # "dropped" /\ (cur.kills = 0 \/ quitSig = "none") /\ dev' = dev \cup {"ExitBeforeKill"}
          /\ phase' = "exited"
-         /\ UNCHANGED <<sid, texts, tmpls, issued, expectSig, reqs, cur, nsent, nkill, lastDisp, started, pvSeq, quitSig>>
+         /\ UNCHANGED <<sid, texts, tmpls, kinds, issued, expectSig, reqs, cur, nsent, nkill, lastDisp, started, pvSeq, quitSig>>
 
 Next == TBegin \/ TEnq \/ TSig \/ TPick \/ TStart \/ TKill \/ TCtx \/ TCExit \/ TDisp \/ TQuiet \/ TExit
 Spec == Init /\ [][Next]_vars
